@@ -7,7 +7,9 @@ import lib_scope as L
 
 RULE = ("scope-operation programs over tokens {declare, assign, read (every third as object shorthand), open block, define "
         "function, loop, close, call, return closure, invoke result} on two names: every token sequence up to length 6 (quick) / "
-        "7 (thorough) after pruning symmetric and referent-less ones (exhaustive), random structured programs with nested "
+        "7 (thorough) after pruning symmetric and referent-less ones (exhaustive), every sequence up to length 7 / 8 over {loop, "
+        "define function, declare, assign, read, read the loop variable, close, keep the first closure in an outer variable, call the "
+        "kept closure} (closures of one iteration called during later iterations and after the loop), random structured programs with nested "
         "functions returning closures that are invoked from scopes holding same-named variables, and progs.generate programs; "
         "each is run as written, with every variable renamed to its own fresh name at once, and with each variable renamed alone "
         "(object shorthand expanded); non-trivial = distinct (set of tokens / stream, outcome, scoping situations met: shadowing, "
@@ -149,6 +151,23 @@ def run(ctx, model_ok):
         chunk = []
 
     for seq in L.sequences(maxlen):
+        b = L.build(seq)
+        if b is None:
+            ctx.exclude("pruned_prefix_or_unobservable")
+            continue
+        chunk.append((seq, b[0], b[1]))
+        if len(chunk) >= 40000:
+            flush()
+    flush()
+
+    # closures created in loop iterations that are kept and called during later iterations and after the loop:
+    # every sequence over the loop-closure tokens (the kept closure is the one of the FIRST iteration)
+    lmax = 8 if thorough else 7
+    ctx.cov["exhaustive_bound"] += f"; loop-closure token sequences of length <= {lmax}"
+    first = True
+    for seq in L.sequences(lmax, L.TOKENS_LOOP):
+        if "L" not in seq:
+            continue
         b = L.build(seq)
         if b is None:
             ctx.exclude("pruned_prefix_or_unobservable")
